@@ -1,16 +1,265 @@
 package main
 
-import "fmt"
+import (
+	"encoding/json"
+	"fmt"
+	"os"
+	"os/exec"
+	"path/filepath"
+	"sort"
+	"strings"
+	"sync"
+)
 
-func runSelftest(repo, vdir, prop string) map[string]interface{} {
-	return map[string]interface{}{"mutants": 0, "killed": 0, "benign": 0, "silent": 0, "note": "corpus not built yet"}
+// Self-test of the checker: edit scripts applied to the CURRENT sources of
+// /repo in memory (packages.Config.Overlay, no copy on disk), one child
+// process per variant. "mutant" scripts break a property in a known way and
+// the named rule must report; "benign" scripts preserve behaviour and every
+// check must stay silent. A script whose anchor text is no longer present in
+// the tree is skipped and listed. The verdict on the real tree never depends
+// on the self-test; a failing self-test means the CHECKER is broken (exit 2).
+
+type stEdit struct {
+	File string `json:"file"`
+	Old  string `json:"old"`
+	New  string `json:"new"`
+	All  bool   `json:"all,omitempty"`
 }
 
-func runSelftestCLI(repo, vdir, prop string) int {
-	fmt.Println("selftest corpus not built yet")
-	return 0
+type stEntry struct {
+	Name   string   `json:"name"`
+	Kind   string   `json:"kind"` // mutant | benign
+	Props  []string `json:"props"`
+	Expect string   `json:"expect,omitempty"` // substring of the rule that must report (mutants)
+	Edits  []stEdit `json:"edits"`
+	Note   string   `json:"note,omitempty"`
+}
+
+func loadCorpus(vdir string) ([]stEntry, error) {
+	b, err := os.ReadFile(filepath.Join(vdir, "selftest", "corpus.json"))
+	if err != nil {
+		return nil, err
+	}
+	var doc struct {
+		Entries []stEntry `json:"entries"`
+	}
+	if err := json.Unmarshal(b, &doc); err != nil {
+		return nil, fmt.Errorf("selftest/corpus.json: %v", err)
+	}
+	return doc.Entries, nil
 }
 
 func mutantOverlay(repo, name string) (map[string][]byte, error) {
-	return nil, fmt.Errorf("unknown mutant %s", name)
+	entries, err := loadCorpus(verifDir())
+	if err != nil {
+		return nil, err
+	}
+	for _, e := range entries {
+		if e.Name != name {
+			continue
+		}
+		out := map[string][]byte{}
+		for _, ed := range e.Edits {
+			p := filepath.Join(repo, ed.File)
+			src, ok := out[p]
+			if !ok {
+				b, err := os.ReadFile(p)
+				if err != nil {
+					return nil, err
+				}
+				src = b
+			}
+			s := string(src)
+			if !strings.Contains(s, ed.Old) {
+				return nil, fmt.Errorf("anchor of %s not present in %s", name, ed.File)
+			}
+			if ed.All {
+				s = strings.ReplaceAll(s, ed.Old, ed.New)
+			} else {
+				s = strings.Replace(s, ed.Old, ed.New, 1)
+			}
+			out[p] = []byte(s)
+		}
+		return out, nil
+	}
+	return nil, fmt.Errorf("unknown self-test entry %s", name)
+}
+
+type stResult struct {
+	Entry  stEntry
+	Prop   string
+	Exit   int
+	Out    string
+	Status string // killed | missed | silent | alarm | skipped | not-compiling
+}
+
+func runOne(repo, vdir string, e stEntry, prop string) stResult {
+	exe, _ := os.Executable()
+	cmd := exec.Command(exe, "-repo", repo, "-prop", prop, "-mutant", e.Name, "-no-evidence", "-tier", "quick")
+	cmd.Env = append(os.Environ(), "VERIF_DIR="+vdir)
+	out, err := cmd.CombinedOutput()
+	code := 0
+	if err != nil {
+		if ee, ok := err.(*exec.ExitError); ok {
+			code = ee.ExitCode()
+		} else {
+			code = 2
+		}
+	}
+	r := stResult{Entry: e, Prop: prop, Exit: code, Out: string(out)}
+	switch {
+	case code == 3:
+		r.Status = "skipped"
+	case strings.Contains(r.Out, "LOAD-FAILED"):
+		r.Status = "not-compiling"
+	case e.Kind == "mutant":
+		if code == 1 && (e.Expect == "" || strings.Contains(r.Out, e.Expect)) {
+			r.Status = "killed"
+		} else {
+			r.Status = "missed"
+		}
+	default:
+		if code == 0 {
+			r.Status = "silent"
+		} else {
+			r.Status = "alarm"
+		}
+	}
+	return r
+}
+
+func runEntries(repo, vdir, prop string) []stResult {
+	entries, err := loadCorpus(vdir)
+	if err != nil {
+		return []stResult{{Status: "missed", Out: err.Error(), Entry: stEntry{Name: "corpus"}}}
+	}
+	type job struct {
+		e stEntry
+		p string
+	}
+	var jobs []job
+	for _, e := range entries {
+		for _, p := range e.Props {
+			if prop == "" || p == prop || (e.Kind == "benign" && p == "*") {
+				pp := p
+				if pp == "*" {
+					pp = prop
+				}
+				if pp == "" {
+					continue
+				}
+				jobs = append(jobs, job{e, pp})
+			}
+		}
+		if e.Kind == "benign" && prop == "" {
+			for _, p := range e.Props {
+				if p == "*" {
+					for id := range props {
+						jobs = append(jobs, job{e, id})
+					}
+				}
+			}
+		}
+	}
+	res := make([]stResult, len(jobs))
+	var wg sync.WaitGroup
+	sem := make(chan struct{}, 8)
+	for i, j := range jobs {
+		wg.Add(1)
+		go func(i int, j job) {
+			defer wg.Done()
+			sem <- struct{}{}
+			defer func() { <-sem }()
+			res[i] = runOne(repo, vdir, j.e, j.p)
+		}(i, j)
+	}
+	wg.Wait()
+	sort.SliceStable(res, func(i, j int) bool {
+		if res[i].Prop != res[j].Prop {
+			return res[i].Prop < res[j].Prop
+		}
+		return res[i].Entry.Name < res[j].Entry.Name
+	})
+	return res
+}
+
+func summarise(res []stResult) map[string]interface{} {
+	sum := map[string]interface{}{}
+	mut, killed, ben, silent, skipped := 0, 0, 0, 0, 0
+	var broken, skippedNames, samples []string
+	for _, r := range res {
+		switch r.Status {
+		case "skipped", "not-compiling":
+			skipped++
+			skippedNames = append(skippedNames, r.Entry.Name+"("+r.Status+")")
+			continue
+		}
+		if r.Entry.Kind == "mutant" {
+			mut++
+			if r.Status == "killed" {
+				killed++
+				if len(samples) < 6 {
+					samples = append(samples, r.Entry.Name+" -> "+r.Entry.Expect)
+				}
+			} else {
+				first := ""
+				for _, l := range strings.Split(r.Out, "\n") {
+					if strings.HasPrefix(l, "property=") {
+						first = l
+					}
+				}
+				broken = append(broken, fmt.Sprintf("%s/%s: mutant not reported by %s (%s)", r.Prop, r.Entry.Name, r.Entry.Expect, first))
+			}
+		} else {
+			ben++
+			if r.Status == "silent" {
+				silent++
+			} else {
+				first := ""
+				for _, l := range strings.Split(r.Out, "\n") {
+					if strings.Contains(l, "VIOLATION:") || strings.Contains(l, "UNDECIDED:") {
+						first = strings.TrimSpace(l)
+						break
+					}
+				}
+				broken = append(broken, fmt.Sprintf("%s/%s: behaviour-preserving edit raised an alarm: %s", r.Prop, r.Entry.Name, first))
+			}
+		}
+	}
+	sum["mutants"] = mut
+	sum["killed"] = killed
+	sum["benign"] = ben
+	sum["silent"] = silent
+	sum["skipped"] = skipped
+	sum["skipped_names"] = skippedNames
+	sum["samples"] = samples
+	sum["broken"] = broken
+	return sum
+}
+
+func runSelftest(repo, vdir, prop string) map[string]interface{} {
+	return summarise(runEntries(repo, vdir, prop))
+}
+
+func runSelftestCLI(repo, vdir, prop string) int {
+	res := runEntries(repo, vdir, prop)
+	for _, r := range res {
+		fmt.Printf("%-4s %-8s %-13s %s\n", r.Prop, r.Entry.Kind, r.Status, r.Entry.Name)
+		if r.Status == "missed" || r.Status == "alarm" || os.Getenv("SELFTEST_VERBOSE") != "" {
+			for _, l := range strings.Split(r.Out, "\n") {
+				if strings.Contains(l, "VIOLATION:") || strings.Contains(l, "UNDECIDED:") || strings.HasPrefix(l, "property=") || strings.Contains(l, "LOAD-FAILED") {
+					fmt.Println("        " + strings.TrimSpace(l))
+				}
+			}
+		}
+	}
+	sum := summarise(res)
+	fmt.Printf("mutants=%v killed=%v benign=%v silent=%v skipped=%v\n", sum["mutants"], sum["killed"], sum["benign"], sum["silent"], sum["skipped"])
+	if b := sum["broken"].([]string); len(b) > 0 {
+		for _, l := range b {
+			fmt.Println("BROKEN:", l)
+		}
+		return 2
+	}
+	return 0
 }
